@@ -169,6 +169,16 @@ MCArgs(name, h, dep) ==
                   THEN LET sq == [i \in 1..Npts(V) |-> Add(Umin(V), Mul(Sub(Umax(V), Umin(V)), Q(i - 1, Npts(V))))] IN
                        {[obj |-> "a", nodes |-> sq, data |-> [i \in 1..Len(sq) |-> R(i * i - 2)], dflt |-> FALSE]}
                   ELSE {})
+            \* square systems on several spans: one node in the middle of the support of every basis function
+            \* (unisolvent by Schoenberg-Whitney when they are distinct), given in several ORDERS
+            \cup (LET n   == Npts(V)
+                      mid == [i \in 1..n |-> Mid(K(V, i - 1), K(V, i + Deg(V)))]
+                      ords == {[i \in 1..n |-> i], [i \in 1..n |-> n + 1 - i], [i \in 1..n |-> 1 + ((i + 1) % n)],
+                               [i \in 1..n |-> IF i = 2 THEN n ELSE IF i = n THEN 2 ELSE i]}
+                  IN IF Cardinality({mid[i] : i \in 1..n}) = n /\ n >= 3
+                     THEN {[obj |-> "a", nodes |-> [i \in 1..n |-> mid[o[i]]], data |-> [i \in 1..n |-> R(((o[i] * o[i]) % 7) - 2)], dflt |-> FALSE] : o \in ords}
+                          \cup {[obj |-> "a", nodes |-> [i \in 1..n |-> mid[o[i]]], data |-> [i \in 1..n |-> Eval(src, mid[o[i]])], dflt |-> FALSE] : o \in ords}
+                     ELSE {})
             \cup (IF h["a"].W = <<>> /\ Npts(V) = Deg(V) + 1 THEN   \* default nodes: unisolvent for one span
                     {[obj |-> "a", nodes |-> NCGrid(V, Npts(V) + k), data |-> [i \in 1..(Npts(V) + k) |-> R((i * i) % 5)], dflt |-> TRUE] : k \in {j \in {0, 2} : Npts(V) + j >= 2}}
                   ELSE {})
